@@ -227,4 +227,91 @@ Match(t, pat) ==
          ELSE IF rest # <<>> THEN {}
               ELSE IF p[1] = "var" THEN {[y \in {p[2]} |-> t]}
               ELSE IF t = VStr(p[2]) THEN {<<>>} ELSE {}
+
+\* ------------------------------------------------------------------------------------------
+\* SESSIONS: a caller who keeps its objects and goes on working with them.  The statement is
+\* about every single call; a session turns that into: "a call has no memory and owns nothing
+\* of the caller".  The caller owns
+\*    objs    the heap of dict objects (as above).  A cell may also be an INLINE pure tree
+\*            <<"m", f>>: a nested dict nobody else holds.  The RESULT of tree_update / Dict +
+\*            dict / table_to_tree is a tree of its own at every depth: it joins the heap as ONE
+\*            new object whose nested branches are inline - no cell of a result is a reference
+\*            to an object the caller already had.
+\*    paths   path objects [kind |-> "list" | "tuple" | "dotted", keys |-> <<k1, .., kn>>]:
+\*            ['a', 'b'], ('a', 'b'), 'a.b' - the object handed to tree_getitem / tree_get /
+\*            tree_setitem, kept by the caller and handed to the next call
+\*    tabs    table objects [kind |-> "dict" | "list" | "dictable", rows |-> <<row, ..>>]: the
+\*            spellings of the table argument of table_to_tree: ONE row as a dict, a list of
+\*            row dicts, a dictable of rows
+\* A step is a record with a field `kind`:
+\*    public calls  get (tree_getitem / tree_get), setitem (tree_setitem, in place by design),
+\*                  update, items, to_table, from_table
+\*    the caller's own actions between calls  edit (obj[key] = cell), setpath (path[:] = keys on
+\*                  a list path), setrow (row[var] = value in a row dict of a dict / list table)
+\* SessOk = the step is inside the quantifier's domain, SessOut = what the call returns,
+\* SessNext = what the caller's objects hold afterwards: for every call other than setitem the
+\* pools are what they were, and the heap is what it was plus the result (update, from_table).
+\* ------------------------------------------------------------------------------------------
+SeqSet(q) == {q[i] : i \in 1..Len(q)}
+InlineCells(objs) == UNION {{objs[i][x] : x \in {y \in DOMAIN objs[i] : IsBranch(objs[i][y])}} : i \in 1..Len(objs)}
+InlineOk(objs) == \A cell \in InlineCells(objs) : KeysOf(cell) # {} /\ NonEmptyBelow(cell)
+SessHeapOk(objs) == /\ Acyclic(objs) /\ InlineOk(objs)
+                    /\ \A i \in 1..Len(objs) : \A j \in RefsOf(objs, i) : DOMAIN objs[j] # {}
+\* tree_setitem walks down all keys but the last: the walk stays inside the object it was given
+\* (what writing through a REFERENCE to another of the caller's dicts means for the trees that
+\* share it is not pinned down by the statement)
+RECURSIVE NoRefOnWalk(_, _)
+NoRefOnWalk(f, q) == IF q = <<>> \/ Head(q) \notin DOMAIN f THEN TRUE
+                     ELSE LET c == f[Head(q)] IN
+                          IF IsRefCell(c) THEN FALSE ELSE IF IsBranch(c) THEN NoRefOnWalk(Kids(c), Tail(q)) ELSE TRUE
+TableRows(tb) == SeqSet(tb.rows)
+TableOk(tb, pat) == /\ Len(pat) >= 2 /\ DistinctVars(pat)
+                    /\ Cardinality(TableRows(tb)) = Len(tb.rows)
+                    /\ (tb.kind = "dict" => Len(tb.rows) = 1)
+                    /\ \A r \in TableRows(tb) : DOMAIN r = VarsOf(pat) /\ RowOk(pat, r)
+                    /\ UniquePaths(pat, TableRows(tb))
+
+SessOk(s, c) ==
+    LET no == Len(s.objs)  np == Len(s.paths)  nt == Len(s.tabs) IN
+    CASE c.kind = "get"     -> /\ c.rt \in 1..no /\ c.p \in 1..np
+                               /\ s.paths[c.p].keys \in TPaths(Unfold(s.objs, c.rt))
+      [] c.kind = "setitem" -> /\ c.rt \in 1..no /\ c.p \in 1..np /\ s.paths[c.p].keys # <<>>
+                               /\ NoRefOnWalk(s.objs[c.rt], Front(s.paths[c.p].keys))
+      [] c.kind = "update"  -> /\ c.rt \in 1..no /\ c.ru \in 1..no
+                               /\ WellFormed(Unfold(s.objs, c.rt)) /\ WellFormed(Unfold(s.objs, c.ru))
+      [] c.kind = "items"   -> c.rt \in 1..no /\ WellFormed(Unfold(s.objs, c.rt))
+      [] c.kind = "to_table" -> /\ c.rt \in 1..no /\ WellFormed(Unfold(s.objs, c.rt))
+                                /\ DistinctVars(c.pat) /\ VarsOf(c.pat) # {}
+      [] c.kind = "from_table" -> c.tb \in 1..nt /\ TableOk(s.tabs[c.tb], c.pat)
+      [] c.kind = "edit"    -> /\ c.obj \in 1..no
+                               /\ IsRefCell(c.cell) => (c.cell[2] \in (c.obj + 1)..no /\ DOMAIN s.objs[c.cell[2]] # {})
+      [] c.kind = "setpath" -> c.p \in 1..np /\ s.paths[c.p].kind = "list"
+      [] c.kind = "setrow"  -> /\ c.tb \in 1..nt /\ s.tabs[c.tb].kind \in {"dict", "list"}
+                               /\ c.row \in 1..Len(s.tabs[c.tb].rows) /\ c.var \in DOMAIN s.tabs[c.tb].rows[c.row]
+      [] OTHER -> FALSE
+
+\* what the call returns (the caller's own actions return nothing: Nil)
+SessNil == <<"nil", 0>>
+SessOut(s, c) ==
+    CASE c.kind = "get"     -> TGet(Unfold(s.objs, c.rt), s.paths[c.p].keys)
+      [] c.kind = "setitem" -> None
+      [] c.kind = "update"  -> Merge(Unfold(s.objs, c.rt), Unfold(s.objs, c.ru), SeqSet(c.ign))
+      [] c.kind = "items"   -> Unfold(s.objs, c.rt)      \* the tree whose TItems are listed (and which items_to_tree rebuilds)
+      [] c.kind = "to_table" -> ToTableFast(Unfold(s.objs, c.rt), c.pat)
+      [] c.kind = "from_table" -> FromTable(TableRows(s.tabs[c.tb]), c.pat)
+      [] OTHER -> SessNil
+
+PutNode(objs, i, f) == [objs EXCEPT ![i] = f]
+SessNext(s, c) ==
+    CASE c.kind \in {"update", "from_table"} -> [s EXCEPT !.objs = Append(s.objs, Kids(SessOut(s, c)))]
+      [] c.kind = "setitem" -> [s EXCEPT !.objs = PutNode(s.objs, c.rt,
+                                   Kids(Insert(Branch(s.objs[c.rt]), s.paths[c.p].keys, c.leaf, SeqSet(c.ign))))]
+      [] c.kind = "edit"    -> [s EXCEPT !.objs = PutNode(s.objs, c.obj,
+                                   [x \in DOMAIN s.objs[c.obj] \cup {c.key} |-> IF x = c.key THEN c.cell ELSE s.objs[c.obj][x]])]
+      [] c.kind = "setpath" -> [s EXCEPT !.paths = [s.paths EXCEPT ![c.p] = [kind |-> "list", keys |-> c.keys]]]
+      [] c.kind = "setrow"  -> [s EXCEPT !.tabs = [s.tabs EXCEPT ![c.tb] =
+                                   [kind |-> s.tabs[c.tb].kind,
+                                    rows |-> [s.tabs[c.tb].rows EXCEPT ![c.row] =
+                                                 [v \in DOMAIN s.tabs[c.tb].rows[c.row] |-> IF v = c.var THEN c.val ELSE s.tabs[c.tb].rows[c.row][v]]]]]]
+      [] OTHER -> s
 =============================================================================
